@@ -310,6 +310,46 @@ def match_known(known, prop, rec):
     return None
 
 
+# ---------------------------------------------------------------- pinned behaviour of known findings
+# A known finding is keyed by a signature (known_findings.json).  A signature describes a REGION of inputs; inside
+# the region a change of the code could hide behind the finding.  pinned/<prop>.<tier>.pin closes that: for every
+# input on which the pinned tree showed a known finding it records a fingerprint of what the pinned tree was
+# OBSERVED to do on that input (the whole observation record of the real code: outcome, queries, partition,
+# automata of the compiled programs ...).  At check time a disagreement is attributed to a known finding only if the
+# input is not in the file or the code still does on it exactly what was recorded; otherwise it is a violation.  The
+# files are written by `bin/verify pins` (VERIF_PIN_WRITE=1), committed, and never written by a check.
+PINS = os.path.join(VERIF, "pinned")
+PIN_BYTES = 5
+
+
+def _h(text):
+    import hashlib
+    return hashlib.sha256(text.encode("utf-8", "surrogatepass")).digest()[:PIN_BYTES]
+
+
+def pin_of(o, extra=""):
+    """(key, fingerprint) of an observation record of the real code: the input, and everything observed on it"""
+    if o is None:
+        return None
+    inp = {k: o.get(k) for k in ("kind", "e", "members", "s", "mode") if k in o}
+    obs = {k: v for k, v in o.items() if k not in ("id", "fam", "sigma")}
+    return (json.dumps(inp, sort_keys=True, separators=(",", ":")) + "|" + json.dumps(o.get("sigma"), separators=(",", ":")) + "|" + extra,
+            json.dumps(obs, sort_keys=True, separators=(",", ":")))
+
+
+def load_pins(prop):
+    tier = os.environ.get("VERIF_CURRENT_TIER", "quick")
+    path = os.path.join(PINS, "%s.%s.pin" % (prop, tier))
+    pins = {}
+    if os.path.exists(path):
+        with open(path, "rb") as f:
+            data = f.read()
+        n = 2 * PIN_BYTES
+        for i in range(0, len(data) - n + 1, n):
+            pins[data[i:i + PIN_BYTES]] = data[i + PIN_BYTES:i + n]
+    return pins
+
+
 class Verdict:
     """collects violations and known findings of one check and produces exit code + lines"""
 
@@ -318,16 +358,42 @@ class Verdict:
         self.known, _ = load_known()
         self.violations = []
         self.findings = {}
+        self.pins = load_pins(prop)
+        self.pin_write = os.environ.get("VERIF_PIN_WRITE") == "1" and not ALT
+        self.new_pins = {}
+        self.unpinned = 0
 
-    def disagree(self, rec, describe):
+    def disagree(self, rec, describe, pin=None):
         k = match_known(self.known, self.prop, rec)
+        if k and pin is not None:
+            hk, hf = _h(k["id"] + "|" + pin[0]), _h(pin[1])
+            if self.pin_write:
+                self.new_pins[hk] = hf
+            elif hk in self.pins and self.pins[hk] != hf:
+                # inside the region of a known finding, but the code no longer does what the pinned tree did here
+                self.unpinned += 1
+                self.violations.append((rec, describe + "  [matches the signature of %s, but the code under test behaves differently on this input than the pinned tree did when the finding was recorded]" % k["id"]))
+                return
         if k:
             f = self.findings.setdefault(k["id"], {"k": k, "n": 0, "sample": describe})
             f["n"] += 1
         else:
             self.violations.append((rec, describe))
 
+    def write_pins(self):
+        if not self.pin_write:
+            return
+        os.makedirs(PINS, exist_ok=True)
+        tier = os.environ.get("VERIF_CURRENT_TIER", "quick")
+        path = os.path.join(PINS, "%s.%s.pin" % (self.prop, tier))
+        with open(path + TMP, "wb") as f:
+            for hk in sorted(self.new_pins):
+                f.write(hk + self.new_pins[hk])
+        os.replace(path + TMP, path)
+        log("[pins] %s: %d inputs with a known finding pinned" % (self.prop, len(self.new_pins)))
+
     def finish(self):
+        self.write_pins()
         for fid in sorted(self.findings):
             f = self.findings[fid]
             print("KNOWN-FINDING: property=%s %s %s (%d records, e.g. %s)" % (
